@@ -1,0 +1,164 @@
+//go:build verif
+
+// Verification hook (add-only, compiled only with -tags verif): white-box dump of a PIT-CS tree, its
+// replacement policy and a dead nonce list. No behaviour change.
+package table
+
+import (
+	"sort"
+
+	enc "github.com/named-data/ndnd/std/encoding"
+)
+
+// VerifPitcsEntry describes one PIT entry of a node.
+type VerifPitcsEntry struct {
+	CanBePrefix bool
+	MustBeFresh bool
+	HasHint     bool
+	Token       uint32
+	InFaces     []uint64
+	OutFaces    []uint64
+	Satisfied   bool
+	Queued      bool  // pqItem != nil
+	Expiration  int64 // expirationTime.UnixNano()
+}
+
+// VerifPitcsNode describes one node of the name tree.
+type VerifPitcsNode struct {
+	Path    enc.Name
+	Pit     []VerifPitcsEntry
+	HasCs   bool
+	CsIndex uint64
+	CsStale int64
+	CsWire  []byte // copy of the stored wire
+}
+
+// VerifPitcsDump is the complete white-box state.
+type VerifPitcsDump struct {
+	Nodes        []VerifPitcsNode // every node reachable from the root (root first, path empty)
+	NPitReported int
+	NCsReported  int
+	TokenMap     int
+	Heap         int
+	HeapMin      int64 // smallest priority in the expiry queue (UnixNano), 0 when empty
+	CsMap        int
+	LruQueue     []uint64 // front (next victim) to back
+	LruLocations int
+	LruDangling  int // locations whose key is not a key of csMap
+	Broken       []string
+}
+
+// VerifPitcsDumpTable walks the table. It returns ok=false when the table is not the tree implementation.
+func VerifPitcsDumpTable(t PitCsTable) (d VerifPitcsDump, ok bool) {
+	p, isTree := t.(*PitCsTree)
+	if !isTree {
+		return d, false
+	}
+	d.NPitReported = p.nPitEntries
+	d.NCsReported = p.nCsEntries
+	d.TokenMap = len(p.pitTokenMap)
+	d.Heap = p.pitExpiryQueue.Len()
+	if d.Heap > 0 {
+		d.HeapMin = p.pitExpiryQueue.PeekPriority()
+	}
+	d.CsMap = len(p.csMap)
+	if l, isLru := p.csReplacement.(*CsLRU); isLru {
+		for e := l.queue.Front(); e != nil; e = e.Next() {
+			d.LruQueue = append(d.LruQueue, e.Value.(uint64))
+		}
+		d.LruLocations = len(l.locations)
+		for k, el := range l.locations {
+			if _, live := p.csMap[k]; !live {
+				d.LruDangling++
+			} else if el.Value.(uint64) != k {
+				d.Broken = append(d.Broken, "lru location value differs from its key")
+			}
+		}
+	}
+	var walk func(n *pitCsTreeNode, path enc.Name)
+	walk = func(n *pitCsTreeNode, path enc.Name) {
+		nd := VerifPitcsNode{Path: append(enc.Name{}, path...)}
+		if n.depth != len(path) {
+			d.Broken = append(d.Broken, "node depth differs from its distance to the root")
+		}
+		for _, e := range n.pitEntries {
+			ve := VerifPitcsEntry{CanBePrefix: e.canBePrefix, MustBeFresh: e.mustBeFresh, HasHint: e.forwardingHintNew != nil,
+				Token: e.token, Satisfied: e.satisfied, Queued: e.pqItem != nil, Expiration: e.expirationTime.UnixNano()}
+			for f := range e.inRecords {
+				ve.InFaces = append(ve.InFaces, f)
+			}
+			for f := range e.outRecords {
+				ve.OutFaces = append(ve.OutFaces, f)
+			}
+			sort.Slice(ve.InFaces, func(i, j int) bool { return ve.InFaces[i] < ve.InFaces[j] })
+			sort.Slice(ve.OutFaces, func(i, j int) bool { return ve.OutFaces[i] < ve.OutFaces[j] })
+			if e.node != n {
+				d.Broken = append(d.Broken, "PIT entry points to another node")
+			}
+			if !e.encname.Equal(path) {
+				d.Broken = append(d.Broken, "PIT entry name differs from node path")
+			}
+			if got, have := p.pitTokenMap[e.token]; !have || got != e {
+				d.Broken = append(d.Broken, "PIT entry missing from token map")
+			}
+			nd.Pit = append(nd.Pit, ve)
+		}
+		if n.csEntry != nil {
+			nd.HasCs = true
+			nd.CsIndex = n.csEntry.index
+			nd.CsStale = n.csEntry.staleTime.UnixNano()
+			nd.CsWire = append([]byte{}, n.csEntry.wire...)
+			if n.csEntry.node != n {
+				d.Broken = append(d.Broken, "CS entry points to another node")
+			}
+			if got, have := p.csMap[n.csEntry.index]; !have || got != n.csEntry {
+				d.Broken = append(d.Broken, "CS entry of a node missing from csMap")
+			}
+			if n.csEntry.index != path.Hash() {
+				d.Broken = append(d.Broken, "CS entry index differs from hash of node path")
+			}
+		}
+		d.Nodes = append(d.Nodes, nd)
+		keys := make([]uint64, 0, len(n.children))
+		for k := range n.children {
+			keys = append(keys, k)
+		}
+		sort.Slice(keys, func(i, j int) bool { return keys[i] < keys[j] })
+		for _, k := range keys {
+			c := n.children[k]
+			if c.parent != n {
+				d.Broken = append(d.Broken, "child's parent pointer differs")
+			}
+			if c.component == nil || c.component.Hash() != k {
+				d.Broken = append(d.Broken, "child key differs from hash of its component")
+				continue
+			}
+			walk(c, append(path, *c.component))
+		}
+	}
+	walk(p.root, enc.Name{})
+	return d, true
+}
+
+// VerifPitcsDnlSizes returns the sizes of the dead nonce list map and of its expiry queue.
+func VerifPitcsDnlSizes(d *DeadNonceList) (int, int) {
+	return len(d.list), d.expirationQueue.Len()
+}
+
+// VerifPitcsTokenOf returns the token of the PIT entry (name, canBePrefix, mustBeFresh) if present.
+func VerifPitcsTokenOf(t PitCsTable, name enc.Name, cbp, mbf bool) (uint32, bool) {
+	p, isTree := t.(*PitCsTree)
+	if !isTree {
+		return 0, false
+	}
+	node := p.root.findExactMatchEntryEnc(name)
+	if node == nil {
+		return 0, false
+	}
+	for _, e := range node.pitEntries {
+		if e.canBePrefix == cbp && e.mustBeFresh == mbf {
+			return e.token, true
+		}
+	}
+	return 0, false
+}
